@@ -13,7 +13,7 @@ from .. import e2e
 from ..common import Hang, Rng, hx, unhx, watchdog
 from ..runner import Check
 from ..translate import c06_tables, formats
-from . import c06_dedupe, c06_dirs
+from . import c06_dedupe, c06_dirs, c06_walk
 
 # ------------------------------------------------------------------ pools (names that collide after normalisation)
 NAMES = [
@@ -1775,6 +1775,10 @@ def search_embed_disagreements(ck: Check) -> None:
     family, embedded as `$id` / `$ref` pairs into complete documents; (2) the names of every disagreeing
     operation sequence become definition keys of complete documents (all orders, three containers,
     forward/mutual/self references); then a wider seeded e2e campaign; then the exhaustive small scope."""
+    if "parse_ref_descends_into_every_schema_field" in ck.broken or any(isinstance(d.input, dict) and "walk_tree" in d.input for d in ck.disagreements):
+        c06_walk.search(ck)
+        if ck.failures:
+            return
     campaign_e2e_anchor_scope(ck, anchor_names_of_disagreements([d.input for d in ck.disagreements]), " [search]")
     if ck.failures:
         return
@@ -1811,6 +1815,8 @@ def known_findings(ck: Check) -> None:
         camp = probe.campaign("witness")
         if f["witness"].get("dirs"):
             c06_dirs.dirs_oracle(probe, camp, f["witness"])
+        elif f["witness"].get("walk"):
+            c06_walk.walk_oracle(probe, camp, f["witness"])
         else:
             e2e_oracle(probe, camp, f["witness"])
         if probe.failures:
@@ -1864,12 +1870,16 @@ def run(ck: Check) -> None:
         "dirs": "distinct directory trees (files, edges, entry, kind) on which the oracle passed",
         "dotted": "distinct documents with dotted keys (keys in order, edges, container, kind) on which the oracle passed",
         "basepath": "distinct operation sequences in which one reference string got different answers in different directories",
+        "walk": "distinct inputs (members with keyword chains and targets, kind) on which the oracle passed",
+        "walk-model": "distinct schema trees with >= 2 references",
         "e2e": "distinct documents (keys in order, edges, container, kind) on which the oracle passed; failures matching a known finding are counted in known_finding_hits_in_campaigns",
     }
     campaign_sequences(ck, 400 if quick else 3000)
     campaign_functions(ck, 300 if quick else 3000)
     campaign_modpass(ck, 300 if quick else 3000)
     campaign_worklist(ck, 120 if quick else 1200)
+    c06_walk.campaign_walk_model(ck, 300 if quick else 3000)
+    c06_walk.campaign_walk(ck, 150 if quick else 1200)
     campaign_e2e(ck, 100 if quick else 600)
     c06_dedupe.campaign_collide(ck, 80 if quick else 800, 3 if quick else 4)
     c06_dedupe.campaign_pass(ck, 300 if quick else 3000, 4 if quick else 5)
@@ -1906,6 +1916,21 @@ def replay(ck: Check, path: str) -> int:
         if not ck.failures:
             print("replay: the oracle does not fail on this input" + (" (matches a known finding)" if ck.known_hits else ""))
         return 1 if ck.failures else 0
+    if inp.get("walk"):
+        camp = ck.campaign("replay")
+        c06_walk.walk_oracle(ck, camp, inp)
+        for f in ck.failures:
+            print("REPLAY-FAILS:", json.dumps(f.classification), f.observed[:300])
+        if not ck.failures:
+            print("replay: the oracle does not fail on this input" + (" (matches a known finding)" if ck.known_hits else ""))
+        return 1 if ck.failures else 0
+    if "walk_tree" in inp:
+        c06_walk.campaign_walk_model(ck, 0, cases=[inp["walk_tree"]])
+        for d in ck.disagreements:
+            print("REPLAY-DISAGREES:", d.campaign, "model=", str(d.model)[:300], "impl=", str(d.impl)[:300])
+        if not ck.disagreements:
+            print("replay: model and implementation agree on this input")
+        return 1 if ck.disagreements else 0
     if inp.get("dirs"):
         camp = ck.campaign("replay")
         c06_dirs.dirs_oracle(ck, camp, inp)
